@@ -239,3 +239,77 @@ Qed.
 Print Assumptions std2_weighted.
 Print Assumptions std2_weighted_denominator.
 Print Assumptions mae_lower_end_at_most_rmse.
+
+(* ---- constant weights are NOT "no weights" for std: with all weights equal to c > 0 the weighted estimator is the
+        unweighted (population) one times n / (n - 1); rmse is the same ---- *)
+Definition unit_w (pw : list (pt4 * Q)) : list (pt4 * Q) := map (fun a => (fst a, 1)) pw.
+Definition qlen {A} (l : list A) : Q := psum (fun _ => 1) l.
+
+Lemma psum_const_w c (g : pt4 -> Q) (pw : list (pt4 * Q)) : (forall a, In a pw -> snd a == c) ->
+  psum (fun a => snd a * g (fst a)) pw == c * psum (fun a => g (fst a)) pw.
+Proof.
+  intros H. rewrite <- psum_scal. apply psum_ext. intros a Ha. rewrite (H a Ha). reflexivity.
+Qed.
+Lemma psum_unit_w (g : pt4 -> Q) (pw : list (pt4 * Q)) :
+  psum (fun a => snd a * g (fst a)) (unit_w pw) == psum (fun a => g (fst a)) pw.
+Proof. induction pw as [|a l IH]; simpl; [reflexivity| rewrite IH; ring]. Qed.
+Lemma psum_snd_const c (pw : list (pt4 * Q)) : (forall a, In a pw -> snd a == c) -> psum snd pw == c * qlen pw.
+Proof.
+  intros H. unfold qlen. rewrite <- psum_scal. apply psum_ext. intros a Ha. rewrite (H a Ha). ring.
+Qed.
+Lemma psum_snd_unit (pw : list (pt4 * Q)) : psum snd (unit_w pw) == qlen pw.
+Proof. unfold qlen. induction pw as [|a l IH]; simpl; [reflexivity| rewrite IH; reflexivity]. Qed.
+Lemma psum_sq_const c (pw : list (pt4 * Q)) : (forall a, In a pw -> snd a == c) ->
+  psum (fun a => snd a * snd a) pw == c * c * qlen pw.
+Proof.
+  intros H. unfold qlen. rewrite <- psum_scal. apply psum_ext. intros a Ha. rewrite (H a Ha). ring.
+Qed.
+Lemma qlen_pos {A} (l : list A) : (1 <= length l)%nat -> 1 <= qlen l.
+Proof.
+  unfold qlen. destruct l as [|a l]; simpl; [lia|]. intros _.
+  assert (0 <= psum (fun _ : A => 1) l) by (apply psum_nonneg; intros; lra). lra.
+Qed.
+Lemma qlen_ge2 {A} (l : list A) : (2 <= length l)%nat -> 2 <= qlen l.
+Proof.
+  unfold qlen. destruct l as [|a [|b l]]; simpl; try lia. intros _.
+  assert (0 <= psum (fun _ : A => 1) l) by (apply psum_nonneg; intros; lra). lra.
+Qed.
+Lemma unit_w_length pw : length (unit_w pw) = length pw.
+Proof. apply map_length. Qed.
+
+Theorem rmse2_constant_weights c f pw weighted : 0 < c -> (1 <= length pw)%nat ->
+  (forall a, In a pw -> snd a == c) ->
+  fst (stat2_encl SRmse weighted f pw) == fst (stat2_encl SRmse false f (unit_w pw)).
+Proof.
+  intros Hc Hn H.
+  destruct (rmse2_value f pw weighted) as [E1 _]. destruct (rmse2_value f (unit_w pw) false) as [E2 _].
+  rewrite E1, E2.
+  rewrite (psum_const_w c (r2 f) pw H), (psum_unit_w (r2 f) pw), (psum_snd_const c pw H), psum_snd_unit.
+  pose proof (qlen_pos pw Hn). field. split; lra.
+Qed.
+
+Theorem std2_constant_weights c f pw : 0 < c -> (2 <= length pw)%nat ->
+  (forall a, In a pw -> snd a == c) ->
+  fst (stat2_encl SStd true f pw) == qlen pw / (qlen pw - 1) * fst (stat2_encl SStd false f (unit_w pw)).
+Proof.
+  intros Hc Hn H. pose proof (qlen_ge2 pw Hn) as Hq.
+  assert (W1: ~ psum snd pw == 0) by (rewrite (psum_snd_const c pw H); nra).
+  assert (W2: ~ psum snd (unit_w pw) == 0) by (rewrite psum_snd_unit; lra).
+  rewrite (std2_weighted f pw W1 Hn). rewrite (std2_unweighted f (unit_w pw) W2).
+  rewrite (psum_const_w c (r2 f) pw H), (psum_const_w c (rx f) pw H), (psum_const_w c (ry f) pw H).
+  rewrite (psum_unit_w (r2 f) pw), (psum_unit_w (rx f) pw), (psum_unit_w (ry f) pw).
+  rewrite (psum_snd_const c pw H), psum_snd_unit, (psum_sq_const c pw H).
+  set (n := qlen pw) in *. set (S2 := psum (fun a => r2 f (fst a)) pw). set (Sx := psum (fun a => rx f (fst a)) pw).
+  set (Sy := psum (fun a => ry f (fst a)) pw).
+  field. repeat split; try lra; nra.
+Qed.
+
+(* ... so for n >= 2 retained sources with constant weights the two estimators differ unless the spread is zero *)
+Example std2_constant_weights_witness :
+  let f := {| f00 := 1; f01 := 0; f10_ := 0; f11_ := 1; fs0 := 0; fs1 := 0 |} in
+  let pts := [({| qx := 3; qy := 4; qu := 0; qv := 0 |}, 2); ({| qx := 1; qy := 1; qu := 1; qv := 1 |}, 2);
+              ({| qx := 0; qy := 2; qu := 0; qv := 0 |}, 2)] in
+  fst (stat2_encl SStd true f pts) == (3 # 2) * fst (stat2_encl SStd false f (unit_w pts)) /\
+  ~ fst (stat2_encl SStd true f pts) == fst (stat2_encl SStd false f (unit_w pts)).
+Proof. vm_compute. split; [reflexivity| discriminate]. Qed.
+Print Assumptions std2_constant_weights.
